@@ -3,8 +3,8 @@ import durcommon
 
 META = {
  "engine": "tla-durable",
- "text": "Validation only at design level (the content is an identity): real files built by random histories (renamed/dropped/added columns, records up to 70 KB, foreign keys, views) go through tools.DumpDatabase + LoadDatabase and tools.Compact; TraceDurable.tla requires the resulting database to have the same content digest (dump schema text, views, rows by live column through every index, counts) and to pass the full check. Durable.tla is model-checked as the surrounding file model",
- "note": "trusts TLC, sha1 digests of content read through the real code; load refusing duplicate-key data is not exercised yet",
+ "text": "Validation only at design level (the content is an identity): real files built by random histories (renamed/dropped/added columns, records up to 70 KB, foreign keys, views) go through tools.DumpDatabase + LoadDatabase and tools.Compact; TraceDurable.tla requires the resulting database to have the same content digest (dump schema text, views, rows by live column through every index, counts) and to pass the full check; a single table goes through DumpTable + LoadTable into a fresh database (same table), and a dump edited to contain a duplicate key must be refused by load. Durable.tla is model-checked as the surrounding file model",
+ "note": "trusts TLC, sha1 digests of content read through the real code",
  "technique": "trace validation of real dump/load/compact runs against the TLA+ file model",
 }
 
